@@ -35,17 +35,12 @@ try:
 finally:
     sh("git checkout -- . && git clean -fdq yarel/src yarel-cli/src", cwd="/repo")
 os.makedirs(dest, exist_ok=True)
-for f in os.listdir(md):
-    if f.startswith(("screen_", "confirm")):
-        continue
-    src = os.path.join(md, f)
-    if os.path.isfile(src) and os.path.getsize(src) < 2_000_000:
-        shutil.copy(src, os.path.join(dest, f))
-out = {"property": pid, "summary": meta.get("summary"), "breaks": meta.get("breaks"), "needs": meta.get("needs"),
-       "demonstration": {"cmd": meta.get("demo_cmd"), "with_change": meta.get("observed_with_change"), "without_change": meta.get("observed_without_change")},
-       "confirmed_in_scratch_worktree": {"by": "tools/seed_confirm.py (patch applies, debug + release build, demonstration output differs with / without the change, repository suite: same result as the clean tree)",
-                                         "confirmed": confirm.get("confirmed"), "tests": confirm.get("tests"), "demo_differs": confirm.get("demo_differs")},
-       "checks_run": {"how": "git -C /repo apply patch.diff; check from /verif against /repo; git -C /repo checkout -- .", "repo_head": head, "verif_head": vhead, "results": results},
-       "detected": any(r["exit"] == 1 and r["violation_lines"] > 0 for r in results.values())}
-json.dump(out, open(os.path.join(dest, "meta.json"), "w"), indent=1)
-print(pid, m, {c: (r["exit"], r["violation_lines"]) for c, r in results.items()}, "detected" if out["detected"] else "MISSED")
+applied = {}
+if os.path.exists(os.path.join(dest, "applied.json")):
+    applied = json.load(open(os.path.join(dest, "applied.json")))
+for c, r in results.items():
+    applied[c] = {"exit": r["exit"], "violations": r["violation_lines"], "known": r["known_finding_lines"], "first": r["first_reports"], "wall": r["wall_s"],
+                  "tool_error": r["tool_errors"], "repo_head": head, "verif_head": vhead,
+                  "how": "applied to /repo (git -C /repo apply patch.diff; ./check from /verif against /repo; git -C /repo checkout -- .)"}
+json.dump(applied, open(os.path.join(dest, "applied.json"), "w"), indent=1)
+print(pid, m, {c: (r["exit"], r["violation_lines"]) for c, r in results.items()}, "detected" if any(r["exit"] == 1 and r["violation_lines"] > 0 for r in results.values()) else "MISSED")
